@@ -502,7 +502,7 @@ def _identity_of_fields(an, fn, cmp: ast.Compare, x: str) -> bool:
     # the other side is rooted at self or at a constructor parameter that becomes the proxy's field
     while isinstance(other, ast.Attribute):
         other = other.value
-    return isinstance(other, ast.Name) and (other.id == fn.self_name or other.id in params)
+    return isinstance(other, ast.Name) and (other.id == fn.self_name or other.id in params) and other.id != x
 
 
 def _is_identity_conjunction(an, f) -> bool:
@@ -512,12 +512,22 @@ def _is_identity_conjunction(an, f) -> bool:
     v = rets[0].value
     parts = v.values if isinstance(v, ast.BoolOp) and isinstance(v.op, ast.And) else [v]
     ok_field = False
+    def root(e):
+        while isinstance(e, ast.Attribute):
+            e = e.value
+        return e.id if isinstance(e, ast.Name) else None
+    others = [a.arg for a in f.params if a.arg != f.self_name]
     for p in parts:
         if not (isinstance(p, ast.Compare) and len(p.ops) == 1 and isinstance(p.ops[0], ast.Is)):
             return False
         txt = ast.unparse(p)
         if "_field" in txt or "field" in txt:
-            ok_field = True
+            # the field of *this* proxy against the field of *the other one*: `self.f is self.f` compares nothing
+            ra, rb = root(p.left), root(p.comparators[0])
+            if {ra, rb} == {f.self_name, others[0] if others else None} and ra != rb:
+                ok_field = True
+            else:
+                return False
     return ok_field
 
 
